@@ -196,6 +196,10 @@ def run(repo, rep, tier):
     from .c07 import _Relabel
     _pd(repo, _Relabel(rep, "R-C10-9"))
     _pl(repo, _Relabel(rep, "R-C10-9"))
+    rep.rule("R-C10-10", "constant offsets that meet the stored direction coordinate additively are floats (NumPy 2 promotion: a Python int adopts the "
+                         "dtype of integer direction labels; unsigned labels then wrap instead of rotating)")
+    from .round7 import int_meets_direction
+    int_meets_direction(repo, rep, "R-C10-10")
     T = Typing(repo, two_d=True)
     mod360_last(repo, rep)
     scale_by_hs(repo, rep)
